@@ -328,7 +328,12 @@ def pick_cc(cases, recs, tier, rng):
     cs = set(chosen)
     rest = [c for c in gen if c not in cs]
     rest.sort(key=lambda c: (c.family, c.data))
-    for fam, k in (("lit", budget // 5), ("mut", budget // 12), ("corpus", 3 if tier == "quick" else 25), ("gram", budget // 12)):
+    # the other families: texts with special syntactic features (tags) first, then a sample
+    tagged = [c for c in rest if c.family != "gram" and c.tags]
+    chosen.extend(core.sample(tagged, budget // 4, rng))
+    cs = set(chosen)
+    rest = [c for c in rest if c not in cs]
+    for fam, k in (("lit", budget // 6), ("mut", budget // 12), ("corpus", 3 if tier == "quick" else 25), ("gram", budget // 12)):
         chosen.extend(core.sample([c for c in rest if c.family == fam], k, rng))
     return chosen
 
@@ -343,13 +348,18 @@ def run(tier, seed):
                    "pairs), edits of spec/Mutate.tla applied to sampled sentences of <= 12 tokens, the literal/nesting/layout "
                    "families of lib_pytexts.py, files of the interpreter's library.  non-trivial = compilation passed the parser "
                    "(reached the transforms) or the text is not valid Python."}
-    jobs = min(core.NCPU, 16)
+    jobs = int(os.environ.get("C43_JOBS") or min(core.NCPU, 16))
     stage = cov["stage_wall_s"] = {}
-    ts = [time.time()]
+    stage_cpu = cov["stage_cpu_s"] = {}      # CPU seconds of the child processes: independent of the machine's load
+    import resource
+    ts = [time.time(), 0.0]
 
     def lap(name):
+        ru = resource.getrusage(resource.RUSAGE_CHILDREN)
+        cpu = ru.ru_utime + ru.ru_stime
         stage[name] = round(time.time() - ts[0], 1)
-        ts[0] = time.time()
+        stage_cpu[name] = round(cpu - ts[1], 1)
+        ts[0], ts[1] = time.time(), cpu
     tl = run_tlc_parallel(tier, seed, cov)
     lap("tlc_model_grammar_mutate")
     gram = gram_cases(tl["gram"], cov)
@@ -398,7 +408,7 @@ def run(tier, seed):
     sus = [c for c in cases if crashy(recs[c.id])]
     if sus:
         fresh = LP.compile_texts([{"id": c.id, "b64": LP.b64(c.data), "kind": "py"} for c in sus], os.path.join(wd, "iso"),
-                                 jobs=jobs, per_text_timeout=limit, shard_timeout=6000, tag="iso", batch=1)
+                                 jobs=max(1, min(jobs, len(sus) // 20)), per_text_timeout=limit, shard_timeout=6000, tag="iso", batch=1)
         cov["anomalies_rerun_in_isolation"] = len(fresh)
         cov["anomalies_not_reproduced_in_isolation"] = sum(1 for r in fresh.values() if not crashy(r))
         recs.update(fresh)
